@@ -74,15 +74,25 @@ void splinetable<Alloc>::fit(const ::ndsparse& data,
 		                       +") shoulb be less than the number of spline dimensions ("
 		                       +std::to_string(data.ndim)+")");
 	
+	//If this table already holds data the fit replaces it: hand the old storage
+	//back first, rather than overwriting the pointers to it.
+	release();
+	
+	//From here on the table is being built. If anything fails give back what
+	//has been allocated so far and leave the table empty, not half populated.
+	try{
+	
 	//Initialize variables
 	ndim=data.ndim;
 	order = allocate<uint32_t>(ndim);
 	std::copy(splineOrder.begin(),splineOrder.end(),order);
 	this->knots = allocate<double_ptr>(ndim);
+	std::fill(this->knots,this->knots+ndim,nullptr);
 	nknots = allocate<uint64_t>(ndim);
 	for(uint32_t i=0; i<ndim; i++)
 		nknots[i]=knots[i].size();
 	extents = allocate<double_ptr>(ndim);
+	extents[0] = nullptr;
 	extents[0] = allocate<double>(2*ndim);
 	naxes = allocate<uint64_t>(ndim);
 	for(uint32_t i=0; i<ndim; i++)
@@ -148,6 +158,11 @@ void splinetable<Alloc>::fit(const ::ndsparse& data,
 	cholmod_l_finish(&cholmod_state);
 	if(result!=0)
 		throw std::runtime_error("GLAM fit failed");
+	
+	}catch(...){
+		release();
+		throw;
+	}
 }
 	
 } //namespace photospline
